@@ -263,15 +263,15 @@ func (m *c19) open(be int, data []byte, plan faultio.Plan) (*parse.BinaryReader,
 	case beBytesReader:
 		r, err = parse.NewBinaryReaderReader(faultio.BytesReader{Reader: faultio.NewReader(ctx, data, faultio.Plan{FailAt: -1})}, int64(ctx.T.Pick(-1, len(data), 0)))
 	case beSeeker:
-		r, err = parse.NewBinaryReaderReader(&faultio.ReadSeeker{Ctx: ctx, Data: data, P: plan, Yield: m.yield}, int64(len(data)))
+		r, err = parse.NewBinaryReaderReader(&faultio.ReadSeeker{Ctx: ctx, Data: data, P: plan, Yield: m.yield, Dev: ctx.T.Sub()}, int64(len(data)))
 	case beSeekerAuto:
-		s := &faultio.ReadSeeker{Ctx: ctx, Data: data, P: plan, Yield: m.yield}
+		s := &faultio.ReadSeeker{Ctx: ctx, Data: data, P: plan, Yield: m.yield, Dev: ctx.T.Sub()}
 		if len(data) > 0 && ctx.T.Chance(1, 4) {
 			s.Pos = int64(ctx.T.Draw(len(data))) // constructor must put the cursor back
 		}
 		r, err = parse.NewBinaryReaderReader(s, -1)
 	case beReaderAt:
-		r, err = parse.NewBinaryReaderReader(&faultio.ReaderAt{Ctx: ctx, Data: data, P: plan, Yield: m.yield}, int64(len(data)))
+		r, err = parse.NewBinaryReaderReader(&faultio.ReaderAt{Ctx: ctx, Data: data, P: plan, Yield: m.yield, Dev: ctx.T.Sub()}, int64(len(data)))
 	case beReadAll:
 		rd := faultio.NewReader(ctx, data, plan)
 		r, err = parse.NewBinaryReaderReader(rd, -1)
